@@ -75,14 +75,14 @@ CLAIMS = {
         text="Root-write audit over the resolved MIR of the whole workspace: every mutation of a GC root (derived from the Process/SelectState ADTs) "
              "must be paired with retain/release of the same value group on every non-error path, be a root-to-root move, insert a heap-free value, "
              "or be one reviewed exception; plus closed writer set of the heap arrays, reclamation only at the step boundary, tracing-oracle "
-             "coverage of every root, walker sibling agreement, copy-on-transfer at worker boundaries, and the running process always returning "
-             "to the table. This decides the accounting discipline for every path at once, where tests need a leak plus a later drop on the right "
+             "coverage of every root, walker sibling agreement, copy-on-transfer at worker boundaries (one index space, injected once, each blob once), the running process always returning "
+             "to the table, the dual of the audit (every retain is owned: stored, returned or released on every non-error path) and per-slot arrays reset when a slot is reused. This decides the accounting discipline for every path at once, where tests need a leak plus a later drop on the right "
              "schedule; byte-content preservation and schedule-dependent masking are not decided.",
         design="§3 C06", technique="static analysis: MIR value-flow closure + path exploration (pairing/typestate of retain/release), who-may-write censuses, HIR sibling agreement"),
     "C08": dict(
         text="Decides the table-construction clauses behind IsType: one-to-one Value->ConcreteType tagging, each tag inserted iff "
              "is_compatible(<its own type id>, pattern), every ProgramUpdate carrying tables recomputed by the compute_* functions from the FULL "
-             "merged program, update_program replacing them. No type test is evaluated; soundness of is_compatible is C09. Also: row p of the IsType table is compute_compatible_concrete_types(p) itself (not assembled from per-variant parts), and process handles are tagged with the entry function; resource type ids are positions in a first-appearance (append-only) name list, so a merge never renumbers the id a live handle carries; the compiler omits a pattern's runtime IsType only under a static compatibility judgment.",
+             "merged program, update_program replacing them. No type test is evaluated; soundness of is_compatible is C09. Also: row p of the IsType table is compute_compatible_concrete_types(p) itself (not assembled from per-variant parts), and process handles are tagged with the entry function; resource type ids are positions in a first-appearance (append-only) name list, so a merge never renumbers the id a live handle carries; the compiler omits a pattern's runtime IsType only under a static compatibility judgment; both runtime tests consult their tables with the value's own concrete tag only.",
         design="§3 C08", technique="static analysis: HIR pattern matrices, MIR value-source slices and guarded reachability"),
     "C12": dict(
         text="Decides the TOTALITY half: an interval abstract interpretation with branch refinement, relational >= facts, range-iterator payloads, "
@@ -91,7 +91,7 @@ CLAIMS = {
              "recognised; the remainder is held to reviewed per-(function, kind) ceilings so any new panic- or truncation-capable construct is "
              "reported; iterated ranges are loop-bound sinks (hang clause). Plus the MAX_BINARY_SIZE choke point, encapsulation of the rope "
              "representation and the rope shape invariants the reviewed bounds rest on (Tiled over a non-empty unit, Slice in bounds, Concat "
-             "length), and a recursion census (no new recursion on the builtins' paths; Concat spines are walked iteratively). Agreement with a reference model "
+             "length), and a recursion census (no new recursion on the builtins' paths; Concat spines are walked iteratively) and per-slot executor state being reset on slot reuse (a memoised result never outlives its bytes). Agreement with a reference model "
              "(value level) is NOT decided.",
         design="§3 C12", technique="static analysis: interval abstract interpretation over MIR + sink census with reviewed residual table"),
     "C13": dict(
@@ -105,7 +105,7 @@ CLAIMS = {
              "close_resource has one caller, is followed by removal and runs only for completed processes; resource_id() agrees with every effect "
              "variant's fields; created handles are top-level completion values; transfer precedes forwarding on deliver and spawn with a recursive "
              "walker; cleanup closes exactly what the ownership map assigns to the finished process at cleanup time; every send/spawn/completion is "
-             "routed through the environment (the only place ownership moves and cleanup is triggered); effect completions are constructed only behind the ownership registration and resource ids come from a monotone counter. One recorded known finding (un-awaited "
+             "routed through the environment (the only place ownership moves and cleanup is triggered); effect completions are constructed only behind the ownership registration and resource ids come from a monotone counter; the ownership walker visits every tuple and closure element. One recorded known finding (un-awaited "
              "termination never reaches cleanup). Event orderings across workers are not decided.",
         design="§3 C14", technique="static analysis: MIR path exploration with forced outcomes / edge deletion, dominance, provenance slices, who-may-call censuses, HIR pattern matrices"),
     "C15": dict(
